@@ -411,7 +411,8 @@ fn draw_ustr(rng: &mut StdRng, item: &Value, uniq: &mut HashMap<String, HashSet<
     for _ in 0 .. 1000 {
         if any {
             let min = item["min"].as_u64().unwrap_or(0) as usize;
-            let n = rng.gen_range(min ..= 20);
+            let shortest = STRCLASS.with(|s| s.borrow().as_str() == "empty") && item["uniq"].is_null();
+            let n = if shortest { min } else { rng.gen_range(min ..= 20) };
             atoms = vec!["ch".to_string(); n];
         }
         let n = atoms.iter().filter(|a| *a == "ch").count();
@@ -451,8 +452,9 @@ fn draw_text(
     min: usize,
     max: usize,
 ) -> String {
+    let nulok = item["nulok"] == true;
     for _ in 0 .. 1000 {
-        let s = random_string_where(rng, min, max, |c| c != '\0' && !excl.contains(&c));
+        let s = random_string_where(rng, min, max, |c| (c != '\0' || nulok) && !excl.contains(&c));
         let s = if item["uniq"].is_string() && s.is_empty() && min == 0 && rng.gen_bool(0.8) {
             // unique keys: the empty key is legal but drawn rarely
             random_string_where(rng, 1, max, |c| c != '\0' && !excl.contains(&c))
@@ -669,7 +671,7 @@ pub fn expected(expect: &[Value], values: &HashMap<String, Value>) -> Value {
         match tr {
             "id" => set_path(&mut root, path, src()),
             "eq1" => set_path(&mut root, path, json!(src().as_u64() == Some(1))),
-            _ if e.get("src").is_some() && !values.contains_key(e["src"].as_str().unwrap_or("")) => {
+            _ if tr != "jsontext" && e.get("src").is_some() && !values.contains_key(e["src"].as_str().unwrap_or("")) => {
                 set_path(&mut root, path, Value::Null)
             }
             "ne0" => set_path(&mut root, path, json!(src().as_u64() != Some(0))),
